@@ -71,6 +71,17 @@ FAMILIES = {
     actions=["EndBlock", "Delegate", "Undelegate", "Claim", "Native", "Remove"], native=[],
     quick=dict(depth=6, blocks=3), thorough=dict(depth=8, blocks=4), sim=None,
   ),
+  "govweight": dict(
+    doc="governance changes reward weights (up, down, to zero) and switches decay on while rewards are pending in the distribution module or already indexed: a change affects only rewards received afterwards (C14 C12 C13)",
+    props=["C14", "C12", "C13"],
+    vals=["v0"], dels=["d0", "d1"], assets={"ast0": dict(weight="1", take="0"), "ast1": dict(weight="0.5", take="0")},
+    amounts=["5"], fractions=[], gaps=[1, 2], accrue=[{"stake": "7"}], unbonding=1, interval=5,
+    actions=["EndBlock", "Delegate", "Claim", "Accrue", "Gov"],
+    prefix=[dict(ev="BeginBlock", dt=1), dict(ev="Delegate", d="d0", v="v0", a="ast0", x="5"), dict(ev="Delegate", d="d1", v="v0", a="ast1", x="5"),
+            dict(ev="EndBlock"), dict(ev="BeginBlock", dt=1)],
+    gov_custom=[dict(a="ast0", weight="2"), dict(a="ast0", weight="0"), dict(a="ast1", weight="1"), dict(a="ast1", weight="0.5", rate="0.5", chgInt="1", wmin="0.1")],
+    quick=dict(depth=5, blocks=2), thorough=dict(depth=7, blocks=3), sim=dict(depth=24, blocks=8),
+  ),
   "gov": dict(
     doc="governance decision table: field classes x signer x asset state for create/update/delete/params, then end-of-block with the accepted parameters (C16 C17)",
     props=["C16", "C17"],
